@@ -316,6 +316,19 @@ pub fn live() -> (usize, usize) {
 pub fn is_live(ptr: usize) -> Option<(usize, usize)> {
     with(|s| s.find(ptr).map(|i| (s.table[i].size, s.table[i].align)))
 }
+/// the live block that contains `ptr` (or whose one-past-the-end `ptr` is): `(base, size)`; looks back at
+/// most `max_back` bytes (buffers handed to the mock host are small)
+pub fn containing(ptr: usize, max_back: usize) -> Option<(usize, usize)> {
+    with(|s| {
+        for back in 0..=max_back.min(ptr) {
+            if let Some(i) = s.find(ptr - back) {
+                let e = s.table[i];
+                return if back <= e.size { Some((e.ptr, e.size)) } else { None };
+            }
+        }
+        None
+    })
+}
 pub fn errors() -> (u32, Option<ContractError>) {
     with(|s| (s.errors, s.first_error))
 }
